@@ -4,6 +4,7 @@ import (
 	"fmt"
 	"go/types"
 	"math/big"
+	"regexp"
 	"strings"
 
 	"golang.org/x/tools/go/ssa"
@@ -111,8 +112,24 @@ var opaqueTypes = map[string]string{
 	"math/rand.Rand": "",
 }
 
+var aliasRe = regexp.MustCompile(`\b(byte|rune|any)\b`)
+
+// typeKey is the canonical name of a type (predeclared aliases resolved, so []byte and []uint8
+// share their heap components).
 func typeKey(t types.Type) string {
-	return types.TypeString(t, nil)
+	s := types.TypeString(t, nil)
+	if strings.Contains(s, "byte") || strings.Contains(s, "rune") || strings.Contains(s, "any") {
+		s = aliasRe.ReplaceAllStringFunc(s, func(m string) string {
+			switch m {
+			case "byte":
+				return "uint8"
+			case "rune":
+				return "int32"
+			}
+			return "interface{}"
+		})
+	}
+	return s
 }
 
 func opaqueSort(t types.Type) (string, bool) {
